@@ -11,7 +11,9 @@ HASH_PROPS = {
     # pid: (monitor prefixes that decide this property, reject %, Lean module, theorems)
     "C06": (("C06-", "C08-"), 8, "IsalVerif.Props.C06",
             ["IsalVerif.HashMB.C06_step", "IsalVerif.HashMB.C06_inflight_iff_lane",
-             "IsalVerif.HashMB.C06_flush_none_iff", "IsalVerif.HashMB.C06_status"]),
+             "IsalVerif.HashMB.C06_flush_none_iff", "IsalVerif.HashMB.C06_status",
+             "IsalVerif.HashMB.C06_total", "IsalVerif.HashMB.C06_flush_total", "IsalVerif.HashMB.C06_flush_count",
+             "IsalVerif.HashMB.C06_drain"]),
     "C11": (("C11-",), 30, "IsalVerif.Props.C11",
             ["IsalVerif.HashMB.C11_reject", "IsalVerif.HashMB.C11_unchanged", "IsalVerif.HashMB.C11_history",
              "IsalVerif.HashMB.C11_nopoison", "IsalVerif.HashMB.C11_reject_code",
